@@ -44,7 +44,47 @@ def run(ctx, case):
         if ok and w2 != w:
             i = next((k for k in range(min(len(w), len(w2))) if w[k] != w2[k]), min(len(w), len(w2)))
             ctx.fail(f"{t}/reencode-differs", f"{t}: re-encoding the decoded block gives different bytes (len {len(w2)} vs {len(w)}, first difference at byte {i})")
+    if ok and t in specs.RLE_TYPES and codec.items(spec) and not case.get("_second_pass"):
+        # the same block object, its gap pattern changed in place, must round-trip again to what it holds NOW
+        import copy
+
+        spec2 = copy.deepcopy(spec)
+        its_lib = list(blk) if t != "platData" else [p for _, p in blk]
+        for it_spec, it_lib in zip(codec.items(spec2), its_lib):
+            fr = it_spec["frames"]
+            it_spec["frames"] = fr[1:] + fr[:1]
+            full = specs.frames_to_array(it_spec["frames"], specs.PER_FRAME[t], specs.PLAIN_HINTS)
+            try:
+                if t in ("data3D", "emg"):
+                    it_lib.data[...] = full.reshape(it_lib.data.shape)
+                elif t == "force3D":
+                    it_lib.application_point[...] = full[:, 0:3]
+                    it_lib.force[...] = full[:, 3:6]
+                    it_lib.torque[...] = full[:, 6:9]
+                else:
+                    it_lib.application_point[...] = full[:, 0:2]
+                    it_lib.force[...] = full[:, 2:5]
+                    it_lib.torque[...] = full[:, 5]
+            except (ValueError, TypeError):
+                spec2 = None
+                break
+        if spec2 is not None and spec2 != spec:
+            want2 = specs.canon(spec2)
+            ok, w3 = ctx.must(lambda: specs.lib_write(blk), f"{t}/encode-after-edit", f"encoding a {t} block after an in-place edit")
+            if ok:
+                with poison.poisoned(0x3E):
+                    ok, res2 = ctx.must(lambda: specs.lib_decode(t, spec["format"], w3), f"{t}/decode-after-edit", f"decoding a {t} block written after an in-place edit")
+                if ok:
+                    d = specs.first_diff(specs.extract(res2[0]), want2)
+                    if d:
+                        ctx.fail(f"{t}/after-edit-field-{specs.diff_class(d[0])}", f"{t}: block edited in place and encoded again: {d[0]} decodes to {str(d[1])[:60]}, "
+                                                                                    f"the block holds {str(d[2])[:60]}")
     ctx.case(case, codec.nontrivial_roundtrip(spec), labels=codec.class_labels(spec, hints))
+
+
+def _long_strategy(tier):
+    return st.sampled_from(specs.RLE_TYPES).flatmap(lambda t: st.fixed_dictionaries({
+        "spec": specs.long_rle_spec(t), "hints": specs.HINTS, "poison": st.sampled_from(poison.POISON_BYTES)}))
 
 
 def _strategy(t):
@@ -62,6 +102,9 @@ def _adapter(spec, raw, tail):
     return {"spec": spec, "hints": specs.PLAIN_HINTS, "poison": poison.POISON_BYTES[(tail[0] if tail else 0) % len(poison.POISON_BYTES)]}
 
 
+SUBS.append(Sub("long-tracks", run, strategy=_long_strategy, budget=(16, 400), shards=(8, 16),
+                rule="blocks of the four run-length types with 1-2 tracks of 257 .. 131079 frames, gaps starting / ending exactly at power-of-two frame "
+                     "numbers, thousands of runs, all input dtypes / byte orders / memory layouts"))
 SUBS += [Sub(f"fuzz:{t}", run, kind="fuzz", fuzz_target=("spec", t, _adapter), budget=(0, 60000), shards=(1, 2),
              rule=f"Atheris/libFuzzer, library instrumented: bytes -> {t} spec via the reference decoder (domain filter) -> same round-trip oracle; "
                   "shard 0 starts from a corpus of reference-encoded generated blocks, shard 1 from an empty corpus") for t in specs.TYPES]
